@@ -431,6 +431,12 @@ func genC20(e *emitter, r *rng, thorough bool) {
 		tape := runWithGenTape(r, -1, func() { _, _ = envelope.NewJSONEnvelope(json.RawMessage(pl)) })
 		e.emit("new.escapes", "env.new "+hx(pl)+" "+tape)
 	}
+	// constructed signatures whose nonce point has x in [N, P)
+	nc := 6
+	if thorough {
+		nc = 40
+	}
+	genC20cons(e, r, nc)
 	// IsValid decision table
 	mimes := []string{"application/json", "base64", "text/plain", "", "application/json; charset=utf-8", "application/jsonl", "Application/JSON", "application/json ", "base64 ", "BASE64"}
 	nv := 6
@@ -524,6 +530,32 @@ func genC20(e *emitter, r *rng, thorough bool) {
 				ev("b64.newline", payload[:len(payload)/2]+"\n"+payload[len(payload)/2:], sigHex, pkHex, mime)
 			}
 		}
+	}
+}
+
+// genC20cons: envelopes carrying constructed signatures that only a complete verifier accepts
+func genC20cons(e *emitter, r *rng, n int) {
+	for i := 0; i < n; i++ {
+		payload := "wrap-" + string(randB58(r, 3+r.intn(20)))
+		mime := []string{"text/plain", "application/json", "base64"}[i%3]
+		signed := []byte(payload)
+		if mime == "base64" {
+			raw := r.bytes(1 + r.intn(30))
+			payload = stdB64(raw)
+			signed = raw
+		}
+		hh := crypto.Sha256(signed)
+		q, rr, ss, ok := consRxWrap(r, hh, int64(1+i*37))
+		if !ok {
+			continue
+		}
+		pk := hex.EncodeToString(pubOf(q.x, q.y).SerialiseCompressed())
+		for ci, sv := range []*big.Int{ss, new(big.Int).Sub(curveN, ss)} {
+			sig := hex.EncodeToString(derOf(derInt(rr), derInt(sv)))
+			e.emit([]string{"cons.rx>=N", "cons.rx>=N.twin"}[ci], fmt.Sprintf("env.valid %s %s %s %s", hx([]byte(payload)), hx([]byte(sig)), hx([]byte(pk)), hx([]byte(mime))))
+		}
+		bad := hex.EncodeToString(derOf(derInt(new(big.Int).Add(rr, big.NewInt(1))), derInt(ss)))
+		e.emit("cons.rx>=N.r+1", fmt.Sprintf("env.valid %s %s %s %s", hx([]byte(payload)), hx([]byte(bad)), hx([]byte(pk)), hx([]byte(mime))))
 	}
 }
 
